@@ -22,6 +22,8 @@ inductive Inst where
 structure TEnv where
   H : Nat → Nat → Nat
   spec : Bool
+  /-- the hasher's default leaf (0 for Poseidon; the toy hasher of the generic-tree streams uses 7) -/
+  dflt : Nat := 0
 
 def fr (n : Nat) : String := hexOfNat n
 
@@ -49,10 +51,10 @@ def parseList (s : String) : Option (List Nat) :=
 
 def newInst (e : TEnv) (backend : String) (depth : Nat) : Option Inst :=
   if e.spec then some (.ideal (Ideal.new depth) backend)
-  else if backend == "full" then some (.full (Full.new e.H 0 depth))
-  else if backend == "opt" then some (.opt (Optimal.new e.H 0 depth))
+  else if backend == "full" || backend == "fullT" then some (.full (Full.new e.H e.dflt depth))
+  else if backend == "opt" || backend == "optT" then some (.opt (Optimal.new e.H e.dflt depth))
   else if backend == "pm" || backend == "pmdisk" then
-    let (t, _) := Pm.new (D := KvMap) e.H 0 depth { kv := {} }
+    let (t, _) := Pm.new (D := KvMap) e.H e.dflt depth { kv := {} }
     some (.pm t)
   else none
 
@@ -93,18 +95,18 @@ def stepInst (e : TEnv) (inst : Inst) (w : List String) : Inst × String :=
     | some i, some v => let (t', r) := upd t (Ideal.set t i v); (.ideal t' b, r)
     | _, _ => (inst, "bad-op")
   | .full t, ["del", i] => match parseHexNat i with
-    | some i => let (t', r) := upd t (Full.delete H 0 t i); (.full t', r)
+    | some i => let (t', r) := upd t (Full.delete H e.dflt t i); (.full t', r)
     | _ => (inst, "bad-op")
   | .opt t, ["del", i] => match parseHexNat i with
-    | some i => let (t', r) := upd t (Optimal.delete H 0 t i); (.opt t', r)
+    | some i => let (t', r) := upd t (Optimal.delete H e.dflt t i); (.opt t', r)
     | _ => (inst, "bad-op")
   | .pm t, ["del", i] => match parseHexNat i with
-    | some i => let (t', r) := updPm (Pm.delete H 0 i t); (.pm t', r)
+    | some i => let (t', r) := updPm (Pm.delete H e.dflt i t); (.pm t', r)
     | _ => (inst, "bad-op")
   | .ideal t b, ["del", i] => match parseHexNat i with
     -- the result code of a deletion at or beyond the high-water mark is backend-specific
     -- (no-op `Ok` in the in-memory trees, `Err` in pmtree); the state is unchanged either way
-    | some i => (.ideal (Ideal.delete 0 t i) b, if i < t.next then "ok" else "n/a")
+    | some i => (.ideal (Ideal.delete e.dflt t i) b, if i < t.next then "ok" else "n/a")
     | _ => (inst, "bad-op")
   | .full t, ["app", v] => match parseHexNat v with
     | some v => let (t', r) := upd t (Full.updateNext H t v); (.full t', r)
@@ -132,13 +134,13 @@ def stepInst (e : TEnv) (inst : Inst) (w : List String) : Inst × String :=
     | some s, some vs => let (t', r) := upd t (Ideal.setRange t s vs); (.ideal t' b, if vs.isEmpty ∧ s > t.cap then "n/a" else r)
     | _, _ => (inst, "bad-op")
   | .full t, ["batch", s, vs, rm] => match parseHexNat s, parseList vs, parseList rm with
-    | some s, some vs, some rm => let (t', r) := upd t (Full.overrideRange H 0 t s vs rm); (.full t', r)
+    | some s, some vs, some rm => let (t', r) := upd t (Full.overrideRange H e.dflt t s vs rm); (.full t', r)
     | _, _, _ => (inst, "bad-op")
   | .opt t, ["batch", s, vs, rm] => match parseHexNat s, parseList vs, parseList rm with
-    | some s, some vs, some rm => let (t', r) := upd t (Optimal.overrideRange H 0 t s vs rm); (.opt t', r)
+    | some s, some vs, some rm => let (t', r) := upd t (Optimal.overrideRange H e.dflt t s vs rm); (.opt t', r)
     | _, _, _ => (inst, "bad-op")
   | .pm t, ["batch", s, vs, rm] => match parseHexNat s, parseList vs, parseList rm with
-    | some s, some vs, some rm => let (t', r) := updPm (Pm.overrideRange NodeMap H 0 s vs rm t); (.pm t', r)
+    | some s, some vs, some rm => let (t', r) := updPm (Pm.overrideRange NodeMap H e.dflt s vs rm t); (.pm t', r)
     | _, _, _ => (inst, "bad-op")
   | .ideal t b, ["batch", s, vs, rm] => match parseHexNat s, parseList vs, parseList rm with
     -- a batch that only names never-written positions changes nothing; its result code is backend-specific
@@ -147,14 +149,14 @@ def stepInst (e : TEnv) (inst : Inst) (w : List String) : Inst × String :=
       -- reject it (nothing changes), the persistent backend ignores the start and performs the removals — both are
       -- "the documented effect, or none"; the specification follows the backend it stands for
       let s := if vs.isEmpty ∧ s > t.cap ∧ (b == "pm" || b == "pmdisk") then 0 else s
-      let (t', r) := upd t (Ideal.batch 0 t s vs rm)
+      let (t', r) := upd t (Ideal.batch e.dflt t s vs rm)
       (.ideal t' b, if vs.isEmpty ∧ ¬ rm.isEmpty ∧ rm.all (fun i => i ≥ t.next ∧ i < t.cap) then "n/a" else r)
     | _, _, _ => (inst, "bad-op")
   -- ---------------------------------------------------------------- observers
   | .full t, ["root"] => (inst, fr t.root)
   | .opt t, ["root"] => (inst, fr t.root)
   | .pm t, ["root"] => (inst, fr t.root)
-  | .ideal t _, ["root"] => (inst, fr (t.nodeFast H 0 0 0))
+  | .ideal t _, ["root"] => (inst, fr (t.nodeFast H e.dflt 0 0))
   | .full t, ["next"] => (inst, toString t.next)
   | .opt t, ["next"] => (inst, toString t.next)
   | .pm t, ["next"] => (inst, toString t.next)
@@ -169,13 +171,13 @@ def stepInst (e : TEnv) (inst : Inst) (w : List String) : Inst × String :=
       | .full t => (t.get i).map fr
       | .opt t => (t.get i).map fr
       | .pm t => (t.get i).map fr
-      | .ideal t _ => if i < t.cap then .ok (fr (t.leaf 0 i)) else .err))
+      | .ideal t _ => if i < t.cap then .ok (fr (t.leaf e.dflt i)) else .err))
   | _, ["sub", l, i] => match l.toNat?, parseHexNat i with
     | some l, some i => (inst, resV (match inst with
       | .full t => (t.getSubtreeRoot l i).map fr
       | .opt t => (t.getSubtreeRoot l i).map fr
       | .pm t => (t.getSubtreeRoot l i).map fr
-      | .ideal t _ => if l > t.depth ∨ i ≥ t.cap then .err else .ok (fr (t.nodeFast H 0 l (i / 2 ^ (t.depth - l))))))
+      | .ideal t _ => if l > t.depth ∨ i ≥ t.cap then .err else .ok (fr (t.nodeFast H e.dflt l (i / 2 ^ (t.depth - l))))))
     | _, _ => (inst, "bad-op")
   | _, ["proof", i] => match parseHexNat i with
     | none => (inst, "bad-op")
@@ -196,9 +198,9 @@ def stepInst (e : TEnv) (inst : Inst) (w : List String) : Inst × String :=
         | .panic, _ => .panic | _, .panic => .panic | _, _ => .err
       | .ideal t _ =>
         if i < t.cap then
-          let p := t.proofFast H 0 i
+          let p := t.proofFast H e.dflt i
           let p' := p.map (fun x => (x.1, x.2))
-          .ok (fmt p' (t.leaf 0 i) (t.nodeFast H 0 0 0) "accepted")
+          .ok (fmt p' (t.leaf e.dflt i) (t.nodeFast H e.dflt 0 0) "accepted")
         else .err))
   -- `pverify i kind k v`: the proof of leaf i, altered, checked against the stored leaf (kind sib/dir)
   -- or against a different leaf value v (kind leaf)
@@ -216,9 +218,9 @@ def stepInst (e : TEnv) (inst : Inst) (w : List String) : Inst × String :=
         | _, _ => "err"
       | .ideal t _ =>
         if i < t.cap then
-          let p := alter (t.proofFast H 0 i) kind k v
-          let lf := if kind == "leaf" then v else t.leaf 0 i
-          if Ideal.computeRoot H lf p == t.nodeFast H 0 0 0 then "accepted" else "rejected"
+          let p := alter (t.proofFast H e.dflt i) kind k v
+          let lf := if kind == "leaf" then v else t.leaf e.dflt i
+          if Ideal.computeRoot H lf p == t.nodeFast H e.dflt 0 0 then "accepted" else "rejected"
         else "err")
     | _, _, _ => (inst, "bad-op")
   -- per level, the sum modulo p of all subtree roots of that level (a full scan of a big tree in one line)
@@ -226,7 +228,7 @@ def stepInst (e : TEnv) (inst : Inst) (w : List String) : Inst × String :=
     let d : Nat := match inst with
       | .full t => t.depth | .opt t => t.depth | .pm t => t.depth | .ideal t _ => t.depth
     let lv : List (List Nat) := match inst with
-      | .ideal t _ => (t.levels H 0).reverse
+      | .ideal t _ => (t.levels H e.dflt).reverse
       | _ => (List.range (d + 1)).map (fun l => (List.range (2 ^ l)).map (fun j =>
           let idx := j * 2 ^ (d - l)
           match (match inst with
@@ -245,7 +247,7 @@ def stepInst (e : TEnv) (inst : Inst) (w : List String) : Inst × String :=
       | .pm t => (t.depth, t.root, t.next, t.emptyIdx)
       | .ideal t _ => (t.depth, 0, t.next, t.emptyIdx)
     let lv : List (List Nat) := match inst with
-      | .ideal t _ => (t.levels H 0).reverse       -- top level first
+      | .ideal t _ => (t.levels H e.dflt).reverse       -- top level first
       | _ => (List.range (d + 1)).map (fun l => (List.range (2 ^ l)).map (fun j =>
           let idx := j * 2 ^ (d - l)
           match (match inst with
@@ -271,7 +273,7 @@ def stepT (e : TEnv) (ti : TInst) (w : List String) : TInst × String :=
   | .pm t, ["close"] => let r := Pm.flush t; ({ ti with inst := .pm r.1 }, res r.2)
   | .ideal _ _, ["close"] => (ti, "ok")
   | .pm t, ["reopen", d] => match d.toNat? with
-    | some d => ({ ti with inst := .pm (Pm.load e.H 0 d { kv := t.db.kv }) }, "ok")
+    | some d => ({ ti with inst := .pm (Pm.load e.H e.dflt d { kv := t.db.kv }) }, "ok")
     | none => (ti, "bad-op")
   | .ideal _ _, ["reopen", _] => (ti, "ok")      -- reopening changes nothing observable
   | .pm t, ["meta", "set", b] => match parseHexBytes b with
